@@ -6,7 +6,7 @@
 //       hasdig=0|1 digseed=N
 //         <str> is  h<hex bytes>  (literal)  or  g<len>.<seed>  (generated pattern)
 //   dec kind=.. x=<hex of the characters>   |   dec kind=.. g=<len>.<seed>.<alphabet 0|1|2>      [nox=1: log the input summarised only]
-// Every operation runs in a forked worker under a 5 s watchdog; a worker that dies (sanitizer
+// Every operation runs in a forked worker; the calls of the code under test are under a watchdog (5 s CPU); a worker that dies (sanitizer
 // abort, signal, watchdog) gives a "crash" event and the next worker continues after it; an operation
 // during which UBSan printed a report gives a "crash" event with "recovered":true.
 // Events (one json object per line):
@@ -29,6 +29,7 @@
 #include <signal.h>
 #include <sys/mman.h>
 #include <sys/stat.h>
+#include <sys/time.h>
 #include <sys/wait.h>
 #include <unistd.h>
 
@@ -194,7 +195,7 @@ static std::string classify_text(const std::string& t, int status) {
     p = t.find("LeakSanitizer");
     if (p != std::string::npos) return "sanitizer/leak";
     if (WIFSIGNALED(status)) {
-        if (WTERMSIG(status) == SIGALRM) return "timeout";
+        if (WTERMSIG(status) == SIGALRM || WTERMSIG(status) == SIGPROF) return "timeout";
         return "signal/" + std::to_string(WTERMSIG(status));
     }
     if (status < 0) return "";
@@ -224,6 +225,15 @@ static std::string ub_since_mark() {
 struct Shared { volatile long idx; volatile int phase; };   // phase 0 idle, 1 enc, 2 dec
 static Shared* g_sh;
 
+// watchdog around the code under test only: 5 s of CPU time of this process (robust against a loaded
+// machine; a loop burns CPU) with a 120 s wall-clock backstop; both signals terminate the worker
+static void watchdog(bool on) {
+    struct itimerval t{};
+    t.it_value.tv_sec = on ? 5 : 0;
+    setitimer(ITIMER_PROF, &t, nullptr);
+    alarm(on ? 120 : 0);
+}
+
 static void crash_event(const ev::Cmd& c, const char* phase, const std::string& why, bool recovered) {
     ev::Ev e("crash");
     e.s("in", c.op).s("tag", c.op == "rt" ? c.s("tag", "") : c.s("kind", "")).s("phase", phase).s("why", why).i("line", g_sh->idx + 1).b("recovered", recovered);
@@ -241,9 +251,11 @@ static void run_one(const ev::Cmd& c) {
         std::string uri;
         Outcome enc{"ok", ""};
         g_sh->phase = 1;
+        watchdog(true);
         try { uri = P::encode_manifest(m); }
         catch (const std::exception& ex) { enc = {"error", type_name(typeid(ex))}; }
         catch (...) { enc = {"error", "unknown"}; }
+        watchdog(false);
         g_sh->phase = 0;
         if (std::string ub = ub_since_mark(); !ub.empty()) { crash_event(c, "enc", ub, true); return; }
         bool exact = all_full(m) && enc.res == "ok" && uri.size() <= kExactUri;
@@ -254,9 +266,11 @@ static void run_one(const ev::Cmd& c) {
             Outcome dec{"ok", ""};
             P::Manifest d{};
             g_sh->phase = 2;
+            watchdog(true);
             try { d = P::decode_manifest(uri); }
             catch (const std::exception& ex) { dec = {dynamic_cast<const std::invalid_argument*>(&ex) ? "invalid_argument" : "other", type_name(typeid(ex))}; }
             catch (...) { dec = {"other", "unknown"}; }
+            watchdog(false);
             g_sh->phase = 0;
             if (std::string ub = ub_since_mark(); !ub.empty()) { crash_event(c, "dec", ub, true); return; }
             e.s("dec", dec.res).s("dec_type", dec.type);
@@ -283,9 +297,11 @@ static void run_one(const ev::Cmd& c) {
         Outcome dec{"ok", ""};
         P::Manifest d{};
         g_sh->phase = 2;
+        watchdog(true);
         try { d = P::decode_manifest(x); }
         catch (const std::exception& ex) { dec = {dynamic_cast<const std::invalid_argument*>(&ex) ? "invalid_argument" : "other", type_name(typeid(ex))}; }
         catch (...) { dec = {"other", "unknown"}; }
+        watchdog(false);
         g_sh->phase = 0;
         if (std::string ub = ub_since_mark(); !ub.empty()) { crash_event(c, "dec", ub, true); return; }
         bool exact = !c.has("nox") && x.size() <= kExactUri && (dec.res != "ok" || all_full(d));
@@ -312,6 +328,8 @@ int main(int argc, char** argv) {
     if (g_sh == MAP_FAILED) { std::perror("mmap"); return 2; }
     std::string errfile = std::string(argv[2]) + ".stderr";
     long start = 0;
+    int crashes = 0;
+    const int kMaxCrashes = 40;
     const long n = static_cast<long>(cmds.size());
     while (start < n) {
         std::fflush(ev::out());
@@ -324,9 +342,7 @@ int main(int argc, char** argv) {
             g_errfile = errfile; g_mark = 0;
             for (long i = start; i < n; ++i) {
                 g_sh->idx = i;
-                alarm(5);
                 run_one(cmds[i]);
-                alarm(0);
             }
             std::fflush(ev::out());
             _exit(0);
@@ -347,6 +363,12 @@ int main(int argc, char** argv) {
         g_sh->idx = i;
         crash_event(cmds[i], phase == 1 ? "enc" : phase == 2 ? "dec" : "driver", classify(errfile, status), false);
         start = i + 1;
+        if (++crashes >= kMaxCrashes) {
+            // every dead worker costs a fork of a sanitizer-instrumented process: after kMaxCrashes the rest of
+            // the script is not executed (the verdict is a violation anyway); the trace says so explicitly
+            for (long j = start; j < n; ++j) { ev::Ev s("skipped"); s.i("line", j + 1).emit(); }
+            break;
+        }
     }
     std::fflush(ev::out());
     return 0;
